@@ -748,3 +748,75 @@ func genWideItems(fullBinary bool) []bitem {
 	}
 	return out
 }
+
+// genRoundTripItems: untyped constant expressions whose intermediate value leaves the 64-bit
+// range (or the type's range) and whose result comes back: (a*b)/b, (a+b)-b, (a<<k)>>j for
+// j in {k-1, k, k+1}, (a<<k)/2^k, -(-a), declared at every basic type.
+func genRoundTripItems() []bitem {
+	var out []bitem
+	two := func(k uint) *big.Int { return new(big.Int).Lsh(big.NewInt(1), k) }
+	bigs := []*big.Int{two(64), new(big.Int).Add(two(64), big.NewInt(1)), new(big.Int).Neg(two(64)), two(100)}
+	ks := []uint{62, 63, 64, 66, 99, 100}
+	types := append(append([]numType{}, intTypesB...), tF64, tF32)
+	for _, t := range types {
+		var al []*big.Int
+		if t.Float {
+			for _, v := range []int64{0, 1, 3, -7, 9007199254740993} {
+				al = append(al, big.NewInt(v))
+			}
+		} else {
+			al = append(al, t.alphabet()...)
+			al = append(al, new(big.Int).Add(t.max(), big.NewInt(1)), new(big.Int).Sub(t.min(), big.NewInt(1)))
+		}
+		mk := func(shape, expr string, v *big.Int, cls string) {
+			it := bitem{Group: "roundtrip|" + shape + "|" + t.Name, Desc: expr + " as " + t.Name, Decl: "const @N@ " + t.Name + " = " + expr}
+			if t.Float {
+				it.WantKind = "f64"
+				bitsFn := "math.Float64bits"
+				if t.Bits == 32 {
+					it.WantKind, bitsFn = "f32", "math.Float32bits"
+				}
+				bits, _ := t.roundTo(new(big.Rat).SetInt(v))
+				it.Accept, it.RC, it.Want = true, "finite", strconv.FormatUint(bits, 10)
+				it.RunWant = it.Want
+				it.RunImports = []string{"math"}
+				it.RunStmts = fmt.Sprintf("\t\t%s\n\t\tprintln(%s(@C@), 0, @ID@)", strings.ReplaceAll(it.Decl, "@N@", "@C@"), bitsFn)
+			} else {
+				it.WantKind = "int"
+				it.RC = t.resultClass(v)
+				it.Accept = t.inRange(v)
+				if it.Accept {
+					it.Want = v.String()
+					it.RunWant = it.Want
+					it.SameRT = true
+					it.RunStmts = fmt.Sprintf("\t\t%s\n\t\tvar x %s = %s\n\t\tprintln(@C@, x, @ID@)", strings.ReplaceAll(it.Decl, "@N@", "@C@"), t.Name, v)
+				}
+			}
+			it.Key = "b|roundtrip|" + shape + "|" + t.Name + "|" + it.RC
+			it.Cls = cls
+			out = append(out, it)
+		}
+		for _, a := range al {
+			ca := "float-target"
+			if !t.Float {
+				ca = t.operandClass(a)
+				if !t.inRange(a) {
+					ca = "outside"
+				}
+			}
+			for _, b := range bigs {
+				mk("(a*b)/b", "("+intLitB(a)+" * "+intLitB(b)+") / "+intLitB(b), a, ca)
+				mk("(a+b)-b", "("+intLitB(a)+" + "+intLitB(b)+") - "+intLitB(b), a, ca)
+			}
+			for _, k := range ks {
+				for _, j := range []uint{k - 1, k, k + 1} {
+					v := new(big.Int).Rsh(new(big.Int).Lsh(a, k), j)
+					mk("(a<<k)>>j", fmt.Sprintf("(%s << %d) >> %d", intLitB(a), k, j), v, ca+fmt.Sprintf(",j-k=%d", int(j)-int(k)))
+				}
+				mk("(a<<k)/2^k", fmt.Sprintf("(%s << %d) / %s", intLitB(a), k, two(k)), a, ca)
+			}
+			mk("-(-a)", "-(-"+intLitB(a)+")", a, ca)
+		}
+	}
+	return out
+}
